@@ -15,11 +15,11 @@ use serde_json::json;
 pub const SPEC: PropSpec = PropSpec {
 	id: "C13",
 	level: "exploration",
-	rule: "case = record schema (nested records, records in arrays/maps/unions, null and union-with-null fields anywhere) + conforming value; the reference encoding in schema order is the oracle (byte-exact). Presentations: every permutation of the root record's fields when it has <= 5 fields (else 40 sampled), nested records permuted independently per presentation, every subset of omissible (null / union-with-null holding null) root fields, as struct / struct variant / map with serialize_entry / map with split key+value; in a third of the cases byte strings are presented as u8 sequences of unknown length (allow_slow_sequence_to_bytes on); then injections at every position of the root field list: a duplicate of each field (before and after its turn), an unknown field, removal of a required field - all must give Err. distinct by hash(schema shape, value bytes, presentation)",
+	rule: "case = record schema (nested records, records in arrays/maps/unions, null and union-with-null fields anywhere) + conforming value; the reference encoding in schema order is the oracle (byte-exact). Presentations: every permutation of the root record's fields when it has <= 5 fields (else 40 sampled), nested records permuted independently per presentation, every subset of omissible (null / union-with-null holding null) root fields, as struct / struct variant / map with serialize_entry / map with split key+value; in a third of the cases byte strings are presented as u8 sequences of unknown length (allow_slow_sequence_to_bytes on); in a quarter of the cases every presentation is streamed into a writer accepting 1-16 bytes per write call; then injections at every position of the root field list: a duplicate of each field (before and after its turn), an unknown field, removal of a required field - all must give Err. distinct by hash(schema shape, value bytes, presentation)",
 	assumptions: &["collections are presented with exact length hints, so the layout of the expected encoding is determined"],
 	cases: (50_000_000, 4_000_000_000),
 	secs: (30, 600),
-	required: &["cases_with_bytes_as_unsized_sequences", "permutations_equal", "omissions_equal", "duplicate_rejected", "unknown_rejected", "missing_required_rejected", "nested_out_of_order"],
+	required: &["cases_with_bytes_as_unsized_sequences", "cases_into_short_writing_sink", "permutations_equal", "omissions_equal", "duplicate_rejected", "unknown_rejected", "missing_required_rejected", "nested_out_of_order"],
 	run_case,
 	once: None,
 	panics_are_violations: true,
@@ -155,6 +155,8 @@ thread_local! {
 	/// per case: byte strings are presented as sequences of u8 of unknown length (what transcoding or `collect_seq` over
 	/// a filtered iterator does), with `allow_slow_sequence_to_bytes` switched on
 	static BYTES_AS_UNSIZED_SEQ: std::cell::Cell<bool> = std::cell::Cell::new(false);
+	/// per case: the datum is streamed into a writer that accepts at most this many bytes per write call (0 = a Vec)
+	static SINK_QUOTA: std::cell::Cell<usize> = std::cell::Cell::new(0);
 }
 
 fn ser(schema: &serde_avro_fast::Schema, c: &Call) -> Result<Vec<u8>, String> {
@@ -162,7 +164,13 @@ fn ser(schema: &serde_avro_fast::Schema, c: &Call) -> Result<Vec<u8>, String> {
 	if BYTES_AS_UNSIZED_SEQ.with(|b| b.get()) {
 		cfg.allow_slow_sequence_to_bytes();
 	}
-	serde_avro_fast::to_datum_vec(c, &mut cfg).map_err(|e| e.to_string())
+	let quota = SINK_QUOTA.with(|q| q.get());
+	if quota == 0 {
+		serde_avro_fast::to_datum_vec(c, &mut cfg).map_err(|e| e.to_string())
+	} else {
+		let sink = crate::io::ScheduledSink::new(vec![quota], quota % 2 == 0);
+		serde_avro_fast::to_datum(c, sink, &mut cfg).map(|s| s.out).map_err(|e| e.to_string())
+	}
 }
 
 /// generate a schema whose root is a record
@@ -198,6 +206,11 @@ pub fn run_case(ctx: &mut Ctx, case_seed: u64) {
 	let rs = record_schema(&mut rng);
 	let unsized_bytes = rng.chance(1, 3);
 	BYTES_AS_UNSIZED_SEQ.with(|b| b.set(unsized_bytes));
+	let quota = if rng.chance(1, 4) { *rng.pick(&[1usize, 2, 3, 7, 16]) } else { 0 };
+	SINK_QUOTA.with(|q| q.set(quota));
+	if quota > 0 {
+		ctx.count("cases_into_short_writing_sink");
+	}
 	if unsized_bytes && rs.reachable().iter().any(|&i| matches!(rs.eff(i), Eff::Bytes)) {
 		ctx.count("cases_with_bytes_as_unsized_sequences");
 	}
